@@ -1,4 +1,239 @@
 import TensorModel.Proofs.Kernels
-/-! C07 — property theorems (see Proofs/Kernels.lean for the kernel-level lemmas). -/
+/-!
+  C07 — option modes: safe is pure; `UseUnsafe` / `WithReuse` / `WithIncr` write only their destination.
+  Property theorems only; helper lemmas live in `TensorModel/Proofs/Kernels.lean`
+  (`cell`, `InBuf`, `ReuseFits` are defined there; see the header of `Props/C06.lean`).
+-/
+set_option linter.unusedSimpArgs false
 namespace TM.C07
+open TM
+
+/-- the four checks of `binaryCheck` for the arithmetic methods -/
+theorem binOK (a b : Dense) (hsh : shapeEq a.shape b.shape = true) (hdt : a.dt = b.dt)
+    (hnum : a.dt ∈ numberTypes) : BinOK numberTypes a b :=
+  ⟨by simpa using hnum, hdt, hsh⟩
+
+/-! ## safe mode is pure -/
+
+/-- Safe mode (no options), raw path: the call succeeds, returns a *fresh* tensor, and every cell of
+    every pre-existing buffer — operands included — and the whole mask heap are as before. -/
+theorem safe_is_pure (st : St) (op : String) (a b : Dense)
+    (hsh : shapeEq a.shape b.shape = true) (hdt : a.dt = b.dt) (hnum : a.dt ∈ numberTypes)
+    (hk : a.dt ∈ kernelTypes op)
+    (hia : a.requiresIterator = false) (hib : b.requiresIterator = false) (hord : sameOrd a b = true)
+    (hm : a.mask = none) (hlen : a.win.len = b.win.len) (hcap : a.win.len ≤ b.win.cap)
+    (hA : InBuf st a.win.buf a.win.off a.win.len) (hB : InBuf st b.win.buf b.win.off a.win.len) :
+    ∃ out c, engArithVV st op numberTypes a b {} = .ok out ∧ out.ret = .fresh c ∧ c.win.buf = st.heap.size ∧
+      out.st.mheap = st.mheap ∧ ∀ b' k, b' < st.heap.size → cell out.st b' k = cell st b' k := by
+  obtain ⟨st', h, hm', _, hfr⟩ := engArithVV_safe_raw' st op numberTypes a b (binOK a b hsh hdt hnum)
+    (by simpa using hk) hia hib hord hm hlen hcap hA hB
+  exact ⟨_, _, h, rfl, rfl, hm', hfr⟩
+
+/-- Safe mode on the iterator path is pure as well. -/
+theorem safe_is_pure_iter (st : St) (op : String) (a b : Dense)
+    (hsh : shapeEq a.shape b.shape = true) (hdt : a.dt = b.dt) (hnum : a.dt ∈ numberTypes)
+    (hk : a.dt ∈ kernelTypes op)
+    (hia : a.requiresIterator = true) (hma : a.mask = none) (hmb : b.mask = none) (hlb : b.win.len ≠ 1)
+    (hoa : ∀ i ∈ a.offsets, 0 ≤ i ∧ i < (a.win.len : Int)) (hob : ∀ j ∈ b.offsets, 0 ≤ j ∧ j < (b.win.len : Int))
+    (hnd : a.offsets.Nodup)
+    (hA : InBuf st a.win.buf a.win.off a.win.len) (hB : InBuf st b.win.buf b.win.off b.win.len) :
+    ∃ out c, engArithVV st op numberTypes a b {} = .ok out ∧ out.ret = .fresh c ∧ c.win.buf = st.heap.size ∧
+      out.st.mheap = st.mheap ∧ ∀ b' k, b' < st.heap.size → cell out.st b' k = cell st b' k := by
+  obtain ⟨st', h, hm', _, _, hfr⟩ := engArithVV_safe_iter' st op numberTypes a b (binOK a b hsh hdt hnum)
+    (by simpa using hk) hia hma hmb hlb hoa hob hnd hA hB
+  exact ⟨_, _, h, rfl, rfl, hm', hfr⟩
+
+/-! ## `UseUnsafe()` -/
+
+/-- `UseUnsafe()`, raw path: the result overwrites the window of `a` (and `a` is returned); `b`, the
+    rest of `a`'s buffer, every other buffer and the mask heap are unchanged. -/
+theorem unsafe_writes_only_a (st : St) (op : String) (a b : Dense)
+    (hsh : shapeEq a.shape b.shape = true) (hdt : a.dt = b.dt) (hnum : a.dt ∈ numberTypes)
+    (hk : a.dt ∈ kernelTypes op)
+    (hia : a.requiresIterator = false) (hib : b.requiresIterator = false) (hord : sameOrd a b = true)
+    (hne : a.win.buf ≠ b.win.buf) (hlen : a.win.len = b.win.len) (hcap : a.win.len ≤ b.win.cap)
+    (hA : InBuf st a.win.buf a.win.off a.win.len) (hB : InBuf st b.win.buf b.win.off a.win.len) :
+    ∃ out, engArithVV st op numberTypes a b { unsafe_ := true } = .ok out ∧ out.ret = .a ∧
+      out.st.mheap = st.mheap ∧
+      (∀ i, i < a.win.len → ∃ x y, cell st a.win.buf (a.win.off + i) = some x ∧
+        cell st b.win.buf (b.win.off + i) = some y ∧
+        cell out.st a.win.buf (a.win.off + i) = some (vecFn op a.dt x y)) ∧
+      (∀ b' k, (b' ≠ a.win.buf ∨ k < a.win.off ∨ a.win.off + a.win.len ≤ k) → cell out.st b' k = cell st b' k) := by
+  obtain ⟨st', h, w⟩ := engArithVV_unsafe_raw' st op numberTypes a b (binOK a b hsh hdt hnum)
+    (by simpa using hk) hia hib hord hne hlen hcap hA hB
+  exact ⟨_, h, rfl, w.sem2 hA.has hB.has⟩
+
+/-! ## reuse -/
+
+/-- `WithReuse(r)`, raw path (`E.OpRecv`): the result is written to the window of `r` (and `r` is
+    returned); when `r`'s buffer differs from both operand buffers the operands are unchanged — indeed
+    nothing outside `r`'s window changes. -/
+theorem reuse_writes_only_reuse (st : St) (op : String) (a b r : Dense)
+    (hsh : shapeEq a.shape b.shape = true) (hdt : a.dt = b.dt) (hnum : a.dt ∈ numberTypes)
+    (hk : a.dt ∈ kernelTypes op)
+    (hia : a.requiresIterator = false) (hib : b.requiresIterator = false) (hir : r.requiresIterator = false)
+    (hord : sameOrd a b = true) (hr : ReuseFits r a.shape a.dt a.ap.o.col)
+    (hna : a.win.buf ≠ r.win.buf) (hnb : b.win.buf ≠ r.win.buf)
+    (hca : r.win.len ≤ a.win.cap) (hcb : r.win.len ≤ b.win.cap)
+    (hA : InBuf st a.win.buf a.win.off r.win.len) (hB : InBuf st b.win.buf b.win.off r.win.len)
+    (hR : InBuf st r.win.buf r.win.off r.win.len) :
+    ∃ out, engArithVV st op numberTypes a b { reuse := some r } = .ok out ∧ out.ret = .reuse ∧
+      out.reuse = some r ∧ out.st.mheap = st.mheap ∧
+      (∀ i, i < r.win.len → ∃ x y, cell st a.win.buf (a.win.off + i) = some x ∧
+        cell st b.win.buf (b.win.off + i) = some y ∧
+        cell out.st r.win.buf (r.win.off + i) = some (.app2 op x y)) ∧
+      (∀ b' k, (b' ≠ r.win.buf ∨ k < r.win.off ∨ r.win.off + r.win.len ≤ k) → cell out.st b' k = cell st b' k) := by
+  obtain ⟨st', h, w⟩ := engArithVV_reuse_raw' st op numberTypes a b r (binOK a b hsh hdt hnum)
+    (by simpa using hk) hia hib hir hord hr hna hnb hca hcb hA hB hR
+  exact ⟨_, h, rfl, rfl, Writes.sem2 (F := fun x y => .app2 op x y) w hA.has hB.has⟩
+
+/-! ## incr -/
+
+/-- `WithIncr(r)`, raw path, non-scalar operands: `r[i] = r[i] + (a[i] op b[i])`; only `r`'s window is
+    written. (For two length-one operands see `TM.C06.eOpIncr_scalars_overwrite_operand`, finding F32.) -/
+theorem incr_writes_only_incr (st : St) (op : String) (a b r : Dense)
+    (hsh : shapeEq a.shape b.shape = true) (hdt : a.dt = b.dt) (hnum : a.dt ∈ numberTypes)
+    (hk : a.dt ∈ kernelTypes op)
+    (hia : a.requiresIterator = false) (hib : b.requiresIterator = false) (hir : r.requiresIterator = false)
+    (hord : sameOrd a b = true) (hr : ReuseFits r a.shape a.dt a.ap.o.col)
+    (hna : a.win.buf ≠ r.win.buf) (hnb : b.win.buf ≠ r.win.buf)
+    (hla : a.win.len ≠ 1) (hlb : b.win.len ≠ 1)
+    (hcb : a.win.len ≤ b.win.cap) (hcr : a.win.len ≤ r.win.cap)
+    (hA : InBuf st a.win.buf a.win.off a.win.len) (hB : InBuf st b.win.buf b.win.off a.win.len)
+    (hR : InBuf st r.win.buf r.win.off a.win.len) :
+    ∃ out, engArithVV st op numberTypes a b { incr := some r } = .ok out ∧ out.ret = .reuse ∧
+      out.reuse = some r ∧ out.st.mheap = st.mheap ∧
+      (∀ i, i < a.win.len → ∃ acc x y, cell st r.win.buf (r.win.off + i) = some acc ∧
+        cell st a.win.buf (a.win.off + i) = some x ∧ cell st b.win.buf (b.win.off + i) = some y ∧
+        cell out.st r.win.buf (r.win.off + i) = some (accAdd acc (vecFn op a.dt x y))) ∧
+      (∀ b' k, (b' ≠ r.win.buf ∨ k < r.win.off ∨ r.win.off + a.win.len ≤ k) → cell out.st b' k = cell st b' k) := by
+  obtain ⟨st', h, w⟩ := engArithVV_incr_raw' st op numberTypes a b r (binOK a b hsh hdt hnum)
+    (by simpa using hk) hia hib hir hord hr hna hnb hla hlb hcb hcr hA hB hR
+  exact ⟨_, h, rfl, rfl, Writes.sem3 (F := fun acc x y => accAdd acc (vecFn op a.dt x y)) w hR.has hA.has hB.has⟩
+
+/-! ## reuse on the iterator path (finding F10) -/
+
+/-- What the model (= the generated Go code) does with a reuse tensor on the iterator path: it first
+    copies `a` into the reuse tensor along the two iterators (`storage.CopyIter`), then runs the
+    *in-place* iterator kernel on (reuse, b). -/
+theorem reuse_iter_model (st : St) (op : String) (a b r : Dense)
+    (hsh : shapeEq a.shape b.shape = true) (hdt : a.dt = b.dt) (hnum : a.dt ∈ numberTypes)
+    (hk : a.dt ∈ kernelTypes op) (hia : a.requiresIterator = true)
+    (hma : a.mask = none) (hmb : b.mask = none) (hmr : r.mask = none)
+    (hr : ReuseFits r a.shape a.dt a.ap.o.col) :
+    engArithVV st op numberTypes a b { reuse := some r } = (do
+      let s ← Dense.copyIterOffsets st r.win a.win r.offsets a.offsets
+      let s ← eOpIter s r.win b.win (fun x y => .app2 op x y) (r.offsets.map (·, true)) (b.offsets.map (·, true))
+        (vecFn op a.dt)
+      pure ⟨s, some r, .reuse⟩) :=
+  engArithVV_iter_reuse st op numberTypes a b r (binOK a b hsh hdt hnum) (by simpa using hk) hia hma hmb hmr hr
+
+/-- The expected value statement for reuse on the iterator path, parameterised by an extra side
+    condition `side` on the three tensors: at the `k`-th position of the three iterators the reuse
+    tensor receives `a[a.offsets[k]] op b[b.offsets[k]]`, and nothing outside the reuse buffer changes. -/
+def ReuseIterStmt (side : Dense → Dense → Dense → Prop) : Prop :=
+  ∀ (st : St) (op : String) (a b r : Dense),
+    shapeEq a.shape b.shape = true → a.dt = b.dt → a.dt ∈ numberTypes → a.dt ∈ kernelTypes op →
+    a.requiresIterator = true → a.mask = none → b.mask = none → r.mask = none →
+    ReuseFits r a.shape a.dt a.ap.o.col →
+    r.win.buf ≠ a.win.buf → side a b r →
+    r.win.len ≠ 1 → b.win.len ≠ 1 → r.win.len ≤ r.win.cap → a.win.len ≤ a.win.cap →
+    (∀ i ∈ r.offsets, 0 ≤ i ∧ i < (r.win.len : Int)) → (∀ i ∈ a.offsets, 0 ≤ i ∧ i < (a.win.len : Int)) →
+    (∀ j ∈ b.offsets, 0 ≤ j ∧ j < (b.win.len : Int)) → r.offsets.Nodup →
+    InBuf st a.win.buf a.win.off a.win.len → InBuf st b.win.buf b.win.off b.win.len →
+    InBuf st r.win.buf r.win.off r.win.len →
+    ∃ out, engArithVV st op numberTypes a b { reuse := some r } = .ok out ∧ out.ret = .reuse ∧
+      out.st.mheap = st.mheap ∧
+      (∀ (k : Nat) m i j, r.offsets[k]? = some m → a.offsets[k]? = some i → b.offsets[k]? = some j →
+        ∃ x y, cell st a.win.buf (a.win.off + i.toNat) = some x ∧ cell st b.win.buf (b.win.off + j.toNat) = some y ∧
+          cell out.st r.win.buf (r.win.off + m.toNat) = some (.app2 op x y)) ∧
+      (∀ b' k', b' ≠ r.win.buf → cell out.st b' k' = cell st b' k')
+
+/-- the full statement: the reuse buffer only has to differ from `a`'s -/
+def reuse_iter_full : Prop := ReuseIterStmt (fun _ _ _ => True)
+
+/-- Proved: when the reuse buffer differs from *both* operand buffers. -/
+theorem reuse_iter_partial : ReuseIterStmt (fun _ b r => r.win.buf ≠ b.win.buf) := by
+  intro st op a b r hsh hdt hnum hk hia hma hmb hmr hr hnra hnrb hlr hlb hcr hca hor hoa hob hnd hA hB hR
+  obtain ⟨st', h, hm, hv, hfr⟩ := engArithVV_reuse_iter' st op numberTypes a b r (binOK a b hsh hdt hnum)
+    (by simpa using hk) hia hma hmb hmr hr hnra hnrb hlr hlb hcr hca hor hoa hob hnd hA hB hR
+  refine ⟨_, h, rfl, hm, ?_, hfr⟩
+  intro k m i j h1 h2 h3
+  have hi := hoa i (List.mem_of_getElem? h2)
+  have hj := hob j (List.mem_of_getElem? h3)
+  exact ⟨_, _, cell_some_cellD (hA.has.at hi.1 hi.2), cell_some_cellD (hB.has.at hj.1 hj.2), hv k m i j h1 h2 h3⟩
+
+/-! ### the witness: `reuse ≡ b` on the iterator path computes `a op a` -/
+namespace W
+def st : St := { heap := #[#[.src 0 0, .src 0 1, .src 0 2, .src 0 3], #[.src 1 0, .src 1 1, .src 1 2, .src 1 3]] }
+/-- a lazily transposed 2×2 tensor in buffer 0 -/
+def a : Dense := { ap := { shape := [2, 2], strides := [1, 2] }, old := some { shape := [2, 2], strides := [2, 1] },
+                   win := ⟨0, 0, 4, 4⟩, dt := "f64" }
+/-- a contiguous 2×2 tensor in buffer 1; it is also passed as the reuse tensor -/
+def b : Dense := { ap := { shape := [2, 2], strides := [2, 1] }, win := ⟨1, 0, 4, 4⟩, dt := "f64" }
+end W
+
+/-- Concrete run: `Add(aᵀ, b, WithReuse(b))`. Position 1 of the iterators is (reuse 1, a 2, b 1); the
+    cell receives `add a[2] a[2]` — the copy of `a` into the reuse tensor has destroyed `b`. -/
+theorem reuse_alias_b_witness :
+    ∃ out, engArithVV W.st "add" numberTypes W.a W.b { reuse := some W.b } = .ok out ∧
+      cell out.st 1 1 = some (.app2 "add" (.src 0 2) (.src 0 2)) :=
+  ⟨_, rfl, rfl⟩
+
+/-- **F10**: the full statement is false — with reuse ≡ b the result is `f a a`, not `f a b`. -/
+theorem reuse_alias_b_fails : ¬ reuse_iter_full := by
+  intro hfull
+  obtain ⟨out, h, _, _, hv, _⟩ := hfull W.st "add" W.a W.b W.b (by decide) rfl (by decide) (by decide) (by decide)
+    rfl rfl rfl ⟨rfl, by decide, by decide, rfl⟩ (by decide) trivial (by decide) (by decide) (by decide) (by decide)
+    (by decide) (by decide) (by decide) (by decide) ⟨_, rfl, by decide⟩ ⟨_, rfl, by decide⟩ ⟨_, rfl, by decide⟩
+  obtain ⟨out', h', hc'⟩ := reuse_alias_b_witness
+  rw [h] at h'
+  injection h' with h'
+  subst h'
+  obtain ⟨x, y, hx, hy, hxy⟩ := hv 1 1 2 1 (by decide) (by decide) (by decide)
+  have hx' : x = .src 0 2 := by
+    have : cell W.st 0 2 = some (.src 0 2) := rfl
+    rw [show W.a.win.buf = 0 from rfl, show W.a.win.off + (2 : Int).toNat = 2 from rfl, this] at hx
+    injection hx with hx; exact hx.symm
+  have hy' : y = .src 1 1 := by
+    have : cell W.st 1 1 = some (.src 1 1) := rfl
+    rw [show W.b.win.buf = 1 from rfl, show W.b.win.off + (1 : Int).toNat = 1 from rfl, this] at hy
+    injection hy with hy; exact hy.symm
+  rw [show W.b.win.buf = 1 from rfl, show W.b.win.off + (1 : Int).toNat = 1 from rfl, hc', hx', hy'] at hxy
+  injection hxy with hxy
+  injection hxy with _ _ hxy
+  cases hxy
+
+/-! ## non-vacuity -/
+namespace Ex
+def st : St := { heap := #[#[.src 0 0, .src 0 1, .src 0 2, .src 0 3], #[.src 1 0, .src 1 1, .src 1 2, .src 1 3],
+                           #[.src 2 0, .src 2 1, .src 2 2, .src 2 3]] }
+def ta : Dense := { ap := { shape := [2, 2], strides := [2, 1] }, win := ⟨0, 0, 4, 4⟩, dt := "f64" }
+def tb : Dense := { ap := { shape := [2, 2], strides := [2, 1] }, win := ⟨1, 0, 4, 4⟩, dt := "f64" }
+def tr : Dense := { ap := { shape := [2, 2], strides := [2, 1] }, win := ⟨2, 0, 4, 4⟩, dt := "f64" }
+def tT : Dense := { ap := { shape := [2, 2], strides := [1, 2] }, old := some { shape := [2, 2], strides := [2, 1] },
+                    win := ⟨0, 0, 4, 4⟩, dt := "f64" }
+theorem inA : InBuf st 0 0 4 := ⟨_, rfl, by decide⟩
+theorem inB : InBuf st 1 0 4 := ⟨_, rfl, by decide⟩
+theorem inR : InBuf st 2 0 4 := ⟨_, rfl, by decide⟩
+theorem fits : ReuseFits tr ta.shape ta.dt ta.ap.o.col := ⟨rfl, by decide, by decide, rfl⟩
+
+example := binOK ta tb (by decide) rfl (by decide)
+example := safe_is_pure st "add" ta tb (by decide) rfl (by decide) (by decide) (by decide) (by decide) (by decide)
+  rfl rfl (by decide) inA inB
+example := safe_is_pure_iter st "add" tT tb (by decide) rfl (by decide) (by decide) (by decide) rfl rfl
+  (by decide) (by decide) (by decide) (by decide) inA inB
+example := unsafe_writes_only_a st "add" ta tb (by decide) rfl (by decide) (by decide) (by decide) (by decide)
+  (by decide) (by decide) rfl (by decide) inA inB
+example := reuse_writes_only_reuse st "add" ta tb tr (by decide) rfl (by decide) (by decide) (by decide) (by decide)
+  (by decide) (by decide) fits (by decide) (by decide) (by decide) (by decide) inA inB inR
+example := incr_writes_only_incr st "add" ta tb tr (by decide) rfl (by decide) (by decide) (by decide) (by decide)
+  (by decide) (by decide) fits (by decide) (by decide) (by decide) (by decide) (by decide) (by decide) inA inB inR
+example := reuse_iter_model st "add" tT tb tr (by decide) rfl (by decide) (by decide) (by decide) rfl rfl rfl
+  ⟨rfl, by decide, by decide, rfl⟩
+example := reuse_iter_partial st "add" tT tb tr (by decide) rfl (by decide) (by decide) (by decide) rfl rfl rfl
+  ⟨rfl, by decide, by decide, rfl⟩ (by decide) (by decide) (by decide) (by decide) (by decide) (by decide)
+  (by decide) (by decide) (by decide) (by decide) inA inB inR
+end Ex
+
 end TM.C07
